@@ -34,6 +34,8 @@ JudgeDepRT(rec) ==
           <<rec.rt.back.ok => rec.rt.back.ast = rec.res.ast, "rendered form parses to a different value">>,
           <<rec.kept_after.ok /\ rec.kept_after.ast = rec.res.ast,
             "a value decoded earlier and kept no longer renders / parses to the same value after its receiver decoded another field">>,
+          <<rec.dirty_control.ok /\ rec.dirty_control.ast = rec.res.ast,
+            "decoding the field into a value that already held relations gives another value than parsing it">>,
           <<pr.class # "reject", "rendered form is a malformed relationship field">>,
           <<pr.class = "accept" => pr.ast = rec.res.ast, "rendered form denotes a different value (reference parser)">> >>)
 
